@@ -253,7 +253,7 @@ def gen_init(run):
     cases = []
     for nm in ("V", "VX", "V1", "SQ", "PI", "DO", "SQX"):
       for pname, applies, tpl in POSITIONS:
-        if pname in ("assign-target", "read", "input", "line-input", "for", "print-neg"):
+        if pname in ("assign-target", "read", "input", "line-input", "for", "print-neg", "for-start", "for-end", "for-step", "for-step-str"):
             continue
         for kind in applies:
             if pname == "hprint" and kind in "na":
